@@ -23,3 +23,13 @@ func hardwareDetailsOracle(der []byte) (ok bool) {
 	_, err = tpm.GetHardwareDetailsFromCertificate(c)
 	return err == nil
 }
+
+func tpmVendors() map[tpm.VendorID]tpm.Vendor { return tpm.RegisteredVendors }
+
+func tpmVendorSnapshot() map[tpm.VendorID]tpm.Vendor {
+	out := map[tpm.VendorID]tpm.Vendor{}
+	for k, v := range tpm.RegisteredVendors {
+		out[k] = v
+	}
+	return out
+}
